@@ -21,6 +21,10 @@ class Oracle:
     def replaying(self):
         return self.pos < len(self.prefix)
 
+    def replaying_forced_or_choice_pending(self):
+        # merging is decided the same way on every replay (it consumes no trace entries), so it is always allowed
+        return False
+
     def next_entry(self):
         e = self.prefix[self.pos]
         self.pos += 1
@@ -63,6 +67,19 @@ class HList:
         return HList(self.items)
 
 
+class HSeqList(HList):
+    """a python list whose length is symbolic: contents are a z3 sequence of element codes (ints / object references)"""
+    def __init__(self, seq, x):
+        self.seq, self.x = seq, x
+
+    @property
+    def items(self):
+        raise Unsupported('operation on a list of symbolic length')
+
+    def copy(self):
+        return HSeqList(self.seq, self.x)
+
+
 class HDict:
     def __init__(self, d=None, default=None):
         self.d = dict(d or {})      # python-hashable key -> SV   (keys: str / ('cls',name) / ('obj',id) / int)
@@ -70,6 +87,12 @@ class HDict:
 
     def copy(self):
         return HDict(self.d, self.default)
+
+
+class NeedConcreteMember(Unsupported):
+    def __init__(self, v):
+        super().__init__('symbolic enum member used as a key')
+        self.v = v
 
 
 class Obligation:
@@ -125,6 +148,8 @@ def key_of(v):
         return ('e', v.t)
     if v.k == 'tuple':
         return ('t', tuple(key_of(x) for x in v.t))
+    if v.k == 'enumv':
+        raise NeedConcreteMember(v)
     if v.k == 'func':
         return ('f', id(v.t))
     raise Unsupported(f'symbolic value {v} used as dictionary key / concrete member')
@@ -151,7 +176,8 @@ class Engine:
         return self.uf[name]
 
     def assume(self, c):
-        c = z3.simplify(c) if z3.is_expr(c) else z3.BoolVal(bool(c))
+        from .solve import ssimplify
+        c = ssimplify(c) if z3.is_expr(c) else z3.BoolVal(bool(c))
         if z3.is_true(c):
             return
         self.st.pc.append(c)
@@ -219,9 +245,13 @@ class Engine:
             return z3.BoolVal(len(v.t) > 0)
         if k == 'list':
             h = self.st.heap[v.t]
+            if isinstance(h, HSeqList):
+                return z3.Length(h.seq) != 0
             return z3.BoolVal(len(h.items) > 0)
         if k == 'dict':
             return z3.BoolVal(len(self.st.heap[v.t].d) > 0)
+        if k == 'enumv':
+            return v.t[1] != 0
         if k in ('obj', 'cls', 'func', 'enum'):
             if k == 'enum':
                 return z3.BoolVal(self.enum_value(v) != 0) if isinstance(self.enum_value(v), int) else z3.BoolVal(True)
@@ -235,6 +265,8 @@ class Engine:
             return v.t
         if v.k == 'bool':
             return z3.If(v.t, z3.IntVal(1), z3.IntVal(0))
+        if v.k == 'enumv':
+            return v.t[1]
         if v.k == 'enum':
             ev = self.enum_value(v)
             if isinstance(ev, int):
